@@ -107,7 +107,13 @@ class Project:
                 "SELECT task_identifier, timestamp, git_commit_hash, has_uncommitted_changes FROM version_index"
             ).fetchall(), key=lambda r: (r[0], r[1]))
         except sqlite3.OperationalError:
-            return []
+            try:
+                # an index still in the on-disk format of Conductor <= 0.4.0 (no dirty flag, commit never known): shown as
+                # the upgrade would record it
+                return sorted(conn.execute("SELECT task_identifier, timestamp, NULL, 0 FROM version_index").fetchall(),
+                              key=lambda r: (r[0], r[1]))
+            except sqlite3.OperationalError:
+                return []
         finally:
             conn.close()
 
@@ -182,6 +188,9 @@ class _Buf:
         pass
 
 
+ASCII_ONLY_STDIO = False
+
+
 class TickStream(io.TextIOBase):
     """A text stream that timestamps what is written with the kernel's logical
     clock; ``.buffer`` receives what the tee forwards."""
@@ -201,6 +210,8 @@ class TickStream(io.TextIOBase):
         return True
 
     def write(self, s):
+        if ASCII_ONLY_STDIO:
+            s.encode("ascii")          # a terminal / pipe whose encoding cannot represent the character: UnicodeEncodeError
         self.parts.append((self.now(), s))
         return len(s)
 
